@@ -27,6 +27,18 @@ ExchangeOK(ev) ==
   IN <<RequestOK(M, ev.doc, ev.vars), VEq(ev.data, r.data), ev.err = r.err>>
 
 Verdict(ev) == IF ev.k = "c" THEN CaseOK(ev) ELSE ExchangeOK(ev)
+\* not demanded by the property, reported as a metric: an entity fetch none of whose fields survives @skip/@include
+\* for the representation's type ("idle" fetch) should not have been sent at all
+Idle(ev) ==
+  /\ ev.k = "x"
+  /\ LET M == SubAt(Subs[ev.e][ev.sg], Universe(ev), ev.seq0)
+         C == [M |-> M, frags |-> ev.doc.frags, vars |-> WithDefaults(ev.doc.vars, ev.vars), ctr |-> 0]
+     IN \E i \in DOMAIN ev.doc.sel :
+           /\ ev.doc.sel[i].k = "f" /\ ev.doc.sel[i].name = "_entities"
+           /\ LET reps == ArgVal(C, ev.doc.sel[i].args, "representations")
+              IN reps.t = "l" /\ \E j \in DOMAIN reps.v :
+                    LET tnv == RepGet(reps.v[j], "__typename")
+                    IN tnv.t = "s" /\ \A f \in Range(Collect(C, tnv.v, ev.doc.sel[i].sel)) : f.name = "__typename"
 
 TraceInit == ln = 1 /\ TLCSet(1, 0) /\ TLCSet(2, 0)
 TraceNext ==
@@ -34,6 +46,7 @@ TraceNext ==
   /\ LET v == Verdict(Ev)
      IN IF \A i \in DOMAIN v : v[i] THEN TRUE
         ELSE PrintT(<<"C01_BAD", ln, Ev.id, v>>) /\ TLCSet(2, TLCGet(2) + 1)
+  /\ IF Idle(Ev) THEN PrintT(<<"C01_IDLE", ln, Ev.id>>) ELSE TRUE
   /\ ln' = ln + 1
 TraceSpec == TraceInit /\ [][TraceNext]_ln
 
